@@ -45,7 +45,7 @@ META = {
 }
 
 TIERS = {"quick": {"programs": 40, "chains": 4, "model_len": 2, "batch": 40},
-         "thorough": {"programs": 600, "chains": 20, "model_len": 3, "batch": 50}}
+         "thorough": {"programs": 400, "chains": 20, "model_len": 3, "batch": 50}}
 
 
 def violations_of(dev, index, progs_of_batch):
